@@ -151,3 +151,28 @@ impl TryRngCore for FallibleSource {
         Ok(())
     }
 }
+
+
+/// The same fallible source with an error type that carries NOTHING (a unit struct, size 0): which
+/// error came back can then only be known from the source's own record. (Code that looks at
+/// `size_of::<R::Error>()` to recognise `Infallible` meets this one.)
+#[derive(Clone, Copy, Debug, PartialEq)]
+pub struct UnitError;
+impl fmt::Display for UnitError {
+    fn fmt(&self, f: &mut fmt::Formatter) -> fmt::Result {
+        write!(f, "injected source error")
+    }
+}
+pub struct FallibleSourceUnit(pub FallibleSource);
+impl TryRngCore for FallibleSourceUnit {
+    type Error = UnitError;
+    fn try_next_u32(&mut self) -> Result<u32, UnitError> {
+        self.0.try_next_u32().map_err(|_| UnitError)
+    }
+    fn try_next_u64(&mut self) -> Result<u64, UnitError> {
+        self.0.try_next_u64().map_err(|_| UnitError)
+    }
+    fn try_fill_bytes(&mut self, dst: &mut [u8]) -> Result<(), UnitError> {
+        self.0.try_fill_bytes(dst).map_err(|_| UnitError)
+    }
+}
